@@ -230,19 +230,6 @@ macro_rules! max {
     }};
 }
 
-/// Const evaluation of `min` for integers.
-macro_rules! min {
-    ($x:expr, $y:expr) => {{
-        let x = $x;
-        let y = $y;
-        if x <= y {
-            x
-        } else {
-            y
-        }
-    }};
-}
-
 /// Enumeration for how to round floats with precision control.
 ///
 /// For example, using [`Round`][RoundMode::Round], `1.2345` rounded
